@@ -340,15 +340,19 @@ impl Prop for C06 {
             ("b.s", "./b.s"),
             ("missing.s", ""),
             ("./sub", ""),
+            // two different spellings of the file itself (every level doubles the work if neither is recognised)
+            ("sub/../main.s|./sub/../main.s", ""),
+            ("sub/../b.s|sub/.././b.s", "sub/../main.s|sub/../b.s"),
         ]
         .iter()
         .enumerate()
         {
             for mode in ["compact", "pretty", "json"] {
                 n += 1;
-                let mut files = vec![("main.s".to_string(), format!("main:\n    li a0, 1\n.include \"{a_inc}\"\n    li a7, 10\n    ecall\n"))];
+                let incs = |spec: &str| spec.split('|').map(|p| format!(".include \"{p}\"\n")).collect::<String>();
+                let mut files = vec![("main.s".to_string(), format!("main:\n    li a0, 1\n{}    li a7, 10\n    ecall\n", incs(a_inc)))];
                 if !b_inc.is_empty() {
-                    files.push(("b.s".to_string(), format!("helper:\n    li t0, 2\n.include \"{b_inc}\"\n")));
+                    files.push(("b.s".to_string(), format!("helper:\n    li t0, 2\n{}", incs(b_inc))));
                 } else if *a_inc == "b.s" {
                     files.push(("b.s".to_string(), "helper:\n    li t0, 2\n".to_string()));
                 }
